@@ -17,6 +17,13 @@ def maskOf (j : Json) : Except String (List Bool) := do
   let ns ← J.list J.int j
   pure (ns.map (· != 0))
 
+/-- filter curves: per band `[lam[], respt[]]` -/
+def curvesOf (j : Json) : Except String (List (List (Float × Float))) :=
+  J.list (fun c => do
+    match ← J.list (J.list J.float) c with
+    | [xp, fp] => if xp.length = fp.length then pure (List.zip xp fp) else throw "curve: lam and respt differ in length"
+    | _ => throw "curve: need [lam, respt]") j
+
 def decJ (d : Dec) : Json :=
   Json.arr #[Json.bool d.neg, J.ofNat d.m, Json.bool d.s, J.ofNat d.e]
 
@@ -51,6 +58,40 @@ def handle (j : Json) : Except String Json := do
       | none => f
       | some m => maskInterp m f
     pure (J.ofList J.ofFloat (rs.map (fun r => filterMean r f')))
+  | "resp" =>
+    -- np.interp of a curve (xp, fp) at xs, as filter_thru calls it (no left / right)
+    let xp ← J.list J.float (← J.fld j "xp")
+    let fp ← J.list J.float (← J.fld j "fp")
+    let xs ← J.list J.float (← J.fld j "xs")
+    match List.zip xp fp with
+    | [] => pure (Json.mkObj [("err", Json.str "ValueError")])
+    | (x0, f0) :: rest => pure (Json.mkObj [("ok", J.ofList J.ofFloat (xs.map (npInterp x0 f0 rest)))])
+  | "fweights" =>
+    -- the weight image: wavelength image, toair, fitted d log10(lambda) image (from the real TraceSet), curves
+    -- → per trace: newwave, diffy (libm log10), one weight row per band
+    let wave ← J.list (J.list J.float) (← J.fld j "wave")
+    let lds ← J.list (J.list J.float) (← J.fld j "lds")
+    let toair ← J.fBool j "toair"
+    let curves ← curvesOf (← J.fld j "curves")
+    let nw := toairImg toair wave
+    let rows := (List.zip lds nw).map (fun (ld, w) =>
+      let ws := curves.map (fun c => match weightRow ld c w with
+        | .ok r => J.ofList J.ofFloat r
+        | .error e => Json.str e)
+      Json.mkObj [("w", J.ofList J.ofFloat w), ("dy", J.ofList J.ofFloat (logDiffY Float.log10 w)),
+                  ("rs", Json.arr ws.toArray)])
+    pure (Json.arr rows.toArray)
+  | "fthru" =>
+    -- filter_thru(flux, waveimg, mask, toair) given the fitted image
+    let wave ← J.list (J.list J.float) (← J.fld j "wave")
+    let lds ← J.list (J.list J.float) (← J.fld j "lds")
+    let flux ← J.list (J.list J.float) (← J.fld j "flux")
+    let masks ← J.fOpt (J.list maskOf) j "mask"
+    let toair ← J.fBool j "toair"
+    let curves ← curvesOf (← J.fld j "curves")
+    match filterThru toair lds curves wave masks flux with
+    | .ok r => pure (Json.mkObj [("ok", J.ofList (J.ofList J.ofFloat) r)])
+    | .error e => pure (Json.mkObj [("err", Json.str e)])
   | "rt_rat" =>
     -- exact run of the same model text at core `Rat` on the rational value of the float input:
     -- both round trips against the proved bound 109/a³, and the exact values for comparison with Float
